@@ -76,13 +76,57 @@ func isMethodCallOnField(ins ssa.Instruction, full string, fv *types.Var) bool {
 }
 
 // alwaysNilErr: every return of fn has the nil constant as its error result.
+// alwaysNilErr: every feasible return of fn yields a nil error. A return is infeasible when it is only reachable through
+// the non-nil edge of a test on the result of a (statically called) function that itself always returns nil; a returned
+// call result counts as nil when that callee always returns nil (depth-bounded, memoised).
+var alwaysNilMemo = map[*ssa.Function]int{} // 1 yes, 2 no, 3 in progress
+
 func alwaysNilErr(fn *ssa.Function) bool {
+	switch alwaysNilMemo[fn] {
+	case 1:
+		return true
+	case 2, 3:
+		return false
+	}
+	alwaysNilMemo[fn] = 3
+	res := alwaysNilErrCompute(fn)
+	if res {
+		alwaysNilMemo[fn] = 1
+	} else {
+		alwaysNilMemo[fn] = 2
+	}
+	return res
+}
+
+func alwaysNilErrCompute(fn *ssa.Function) bool {
 	k := errResultIndex(fn)
 	if k < 0 || len(fn.Blocks) == 0 {
 		return false
 	}
+	staticNil := func(v ssa.Value) bool {
+		call, ok := stripConv(v).(*ssa.Call)
+		if !ok {
+			return false
+		}
+		f := call.Call.StaticCallee()
+		return f != nil && f != fn && alwaysNilErr(f)
+	}
+	fact := func(cond ssa.Value) (bool, bool) {
+		v, trueIsNonNil, ok := nilTest(cond)
+		if !ok || !staticNil(resolveLoad(v)) {
+			return false, false
+		}
+		return trueIsNonNil, !trueIsNonNil
+	}
+	edgeOK := PruneFactEdges(fact)
 	for _, ret := range Returns(fn) {
-		if !isNilConst(ReturnValue(ret, k)) {
+		v := ReturnValue(ret, k)
+		if isNilConst(v) || staticNil(v) {
+			continue
+		}
+		// feasible?
+		hit, _ := ReachBlock(fn.Blocks[0], func(i ssa.Instruction) bool { return i == ssa.Instruction(ret) }, nil, edgeOK)
+		if hit != nil {
 			return false
 		}
 	}
